@@ -14,8 +14,9 @@
                | (0 shape)                  it has not: the run stops here
      shape  : the model's flattened script, ((0) exec | (2) read | (3) commit | (4 k) cond-commit ...)
      step   : (n last (tables)?)  bookkeeping after the step; the durable tables when the
-              step may have committed (a commit step, or a conditional_commit that leaves
-              the counter at 0 - every conditional_commit that commits does), else ()
+              step may have changed them (a commit step, or a conditional_commit that leaves
+              the counter at 0 - every conditional_commit that commits does - after at least
+              one statement since the previous such step), else () = unchanged
      res    : (0) the call returns | (1 errcode) it raises | (2)
      tables : (((rowid id meta) ...) ((id bucketrow start end data) ...) seq_buckets seq_events) *)
 From AwVerif Require Import Base.Prelude Base.Sexp Model.Commit.
@@ -99,22 +100,28 @@ Definition shape_s (m : smicro) : sexp :=
   | SCondCommit k => L [A 4; A k]
   end.
 
+(* [durable] changes only when a commit finds statements executed since the previous
+   commit ([dirty]); it is printed exactly then (printing more often would be harmless) *)
 Definition may_have_committed (m : smicro) (s' : crstate) : bool :=
   match m with
   | SCommit => true
   | SCondCommit _ => cr_n s' =? 0
   | _ => false
   end.
+Definition is_exec (m : smicro) : bool :=
+  match m with SExec _ | SExecMany _ => true | _ => false end.
 
-Fixpoint run_steps (lazy : bool) (s : crstate) (ms : list smicro) (cs : list clk)
-  : list sexp * crstate :=
+Fixpoint run_steps (lazy : bool) (s : crstate) (dirty : bool) (ms : list smicro) (cs : list clk)
+  : list sexp * (crstate * bool) :=
   match ms, cs with
   | m :: ms', c :: cs' =>
       let s' := cr_step lazy s (m, c) in
-      let d := if may_have_committed m s' then L [tables_s (durable s')] else L [] in
-      let '(l, fin) := run_steps lazy s' ms' cs' in
+      let com := may_have_committed m s' in
+      let d := if com && dirty then L [tables_s (durable s')] else L [] in
+      let dirty' := if com then false else dirty || is_exec m in
+      let '(l, fin) := run_steps lazy s' dirty' ms' cs' in
       (L [A (cr_n s'); A (cr_last s'); d] :: l, fin)
-  | _, _ => ([], s)
+  | _, _ => ([], (s, dirty))
   end.
 
 Definition out_code (r : res out) : sexp :=
@@ -124,14 +131,15 @@ Definition out_code (r : res out) : sexp :=
   | OutOfFuel => L [A 2]
   end.
 
-Fixpoint run_calls (lazy : bool) (s : crstate) (calls : list (cop * list clk)) : list sexp * crstate :=
+Fixpoint run_calls (lazy : bool) (s : crstate) (dirty : bool) (calls : list (cop * list clk))
+  : list sexp * crstate :=
   match calls with
   | [] => ([], s)
   | (o, cs) :: t =>
       let ms := flat_map flatten_micro (sscript (live s) o) in
       if Nat.eqb (length ms) (length cs) then
-        let '(steps, s') := run_steps lazy s ms cs in
-        let '(l, fin) := run_calls lazy s' t in
+        let '(steps, (s', dirty')) := run_steps lazy s dirty ms cs in
+        let '(l, fin) := run_calls lazy s' dirty' t in
         (L [A 1; L (map shape_s ms); L steps; out_code (cop_out (live s) o)] :: l, fin)
       else ([L [A 0; L (map shape_s ms)]], s)
   end.
@@ -141,7 +149,7 @@ Definition driver_entry (s : sexp) : sexp :=
   | L [lz; A t0; calls] =>
       match sBool lz, sList sCall calls with
       | Some lz, Some calls =>
-          let '(l, fin) := run_calls lz (cr_init sq_init t0) calls in
+          let '(l, fin) := run_calls lz (cr_init sq_init t0) false calls in
           L [L l; tables_s (live fin)]
       | _, _ => bad_case
       end
